@@ -1076,13 +1076,30 @@ void sync_exit_locked(World &W, int si, int rc)
 		// C08 presupposes that what the client accepted during the fault phase was honest: a response that is
 		// well-formed but does not carry the cache's real data (e.g. an extra End of Data in the middle) leaves a wrong
 		// base for later deltas that no client can detect
-		bool stream_honest = !(w.kind == WK_OK && !must_fail) || (w.new_pfx == p.data && w.new_spki == (w.version_after >= 1 ? p.keys : std::set<SpkiRec>()));
+		// (an unmutated answer of the simulated cache is its real delta / full set by construction, whatever the client
+		// made of earlier answers)
+		bool mutated = (x.plan.has("muts") && x.plan["muts"].size() > 0) || x.plan.gets("resp", "auto") == "raw";
+		// bytes left over from an earlier (mutated) answer on the same connection that are not plain Serial Notifies
+		// become part of what the client reads as this answer
+		if (x.start_off > from) {
+			size_t lim = x.start_off - from, pos = 0;
+			while (pos + 12 <= lim && view.bytes[pos + 1] == PDU_SERIAL_NOTIFY && get32(&view.bytes[pos + 4]) == 12)
+				pos += 12;
+			if (pos != lim)
+				mutated = true;
+		}
+		bool stream_honest = !mutated || !(w.kind == WK_OK && !must_fail) ||
+				     (w.new_pfx == p.data && w.new_spki == (w.version_after >= 1 ? p.keys : std::set<SpkiRec>()));
 		if (!stream_honest && !p.tainted) {
 			p.tainted = true;
 			W.ctx.count("probe_accepted_response_not_cache_state");
-		} else if (ap == p.data && as == (b.version >= 1 ? p.keys : std::set<SpkiRec>()))
+		}
+		// a version-0 connection carries no router keys: keys the client still holds from a version-1 past of the same
+		// session are outside what the cache can govern, so they are not part of the comparison then
+		bool equal_now = ap == p.data && (b.version >= 1 ? as == p.keys : true);
+		if (stream_honest && equal_now)
 			p.tainted = false;
-		if (p.clean && ap == p.data && as == (b.version >= 1 ? p.keys : std::set<SpkiRec>()) && !p.converged) {
+		if (p.clean && equal_now && !p.converged) {
 			p.converged = true;
 			p.t_converged = sim_now_ns();
 			sim_wake(SIM_W_USER, &W);
